@@ -126,7 +126,9 @@ theorem connectUnary_code (cfg : CCfg) (st : Bytes) (r : Resp) (e : CErr)
   unfold clientConnectUnary at h
   simp only at h
   split at h
-  · simp only [Option.some.injEq] at h; subst h; exact codes_nonzero.1
+  · split at h
+    · simp only [Option.some.injEq] at h; subst h; exact connectHTTPToCode_ne_zero _
+    · simp only [Option.some.injEq] at h; subst h; exact codes_nonzero.1
   · split at h
     · split at h
       · simp only [Option.some.injEq] at h; subst h; exact fixCode_ne_zero _ _ (connectHTTPToCode_ne_zero _)
@@ -325,6 +327,23 @@ theorem non200_code_from_status_unary (cfg : CCfg) (st : Bytes) (r : Resp) (hs :
   · rename_i w hw; exact absurd hw (hbody w).1
   · rename_i w hw; exact absurd hw (hbody w).2
   · exact ⟨_, rfl, rfl⟩
+
+/-- **non200_code_from_status (unary Connect, unreadable encoding)** (fix F30): a non-200 answer
+    that names a content encoding this client does not have carries no error the client could
+    read: whatever the body, the code is that of the HTTP status. (Before the fix the unknown
+    encoding was reported first, as `internal` — the hypothesis `henc` of the theorem above was
+    the proof's way of saying so.) -/
+theorem non200_code_from_status_unary_unknown_encoding (cfg : CCfg) (st : Bytes) (r : Resp) (hs : r.status ≠ 200)
+    (henc : encodingKnown cfg (r.header.get Gen.hdrConnectUnaryEncoding) = false) :
+    (clientConnectUnary cfg st r).result =
+      some { code := connectHTTPToCode r.status, msg := st, details := [], md := [] } := by
+  simp [clientConnectUnary, henc, hs]
+
+/-- on a 200 an unreadable encoding is still a protocol error -/
+theorem unknown_encoding_on_200_is_internal (cfg : CCfg) (st : Bytes) (r : Resp) (hs : r.status = 200)
+    (henc : encodingKnown cfg (r.header.get Gen.hdrConnectUnaryEncoding) = false) :
+    (clientConnectUnary cfg st r).result = some (localErr codeInternal) := by
+  simp [clientConnectUnary, henc, hs]
 
 /-- **unary body without code**: a unary Connect error body whose code is missing or zero takes
     its code from the HTTP status (fix f212b2f) -/
